@@ -211,8 +211,9 @@ GenCmp(scope, depth, s) ==
 
 ScopeWithSlot(pats, p, outer, slot) ==      \* captures of pattern p shadow outer numbered captures of the same index
   LET mine == [g \in 1..Len(pats[p].caps) |-> [p |-> p, slot |-> slot, g |-> g, k |-> pats[p].caps[g].k, name |-> pats[p].caps[g].name]]
-      keep == SelectSeq(outer, LAMBDA c : Abs(c.g) > Len(pats[p].caps) \/ c.name # "")
-      \* an outer capture whose index is shadowed stays reachable by name only
+      mynames == {pats[p].caps[g].name : g \in 1..Len(pats[p].caps)} \ {""}
+      keep == SelectSeq(outer, LAMBDA c : (Abs(c.g) > Len(pats[p].caps) \/ c.name # "") /\ c.name \notin mynames)
+      \* an outer capture whose index is shadowed stays reachable by name only (unless the name is redeclared too)
       fix == [i \in 1..Len(keep) |-> IF Abs(keep[i].g) <= Len(pats[p].caps) THEN [keep[i] EXCEPT !.g = -Abs(keep[i].g)] ELSE keep[i]]
   IN mine \o fix
 ScopeWith(pats, p, outer) == ScopeWithSlot(pats, p, outer, p)
